@@ -330,7 +330,7 @@ def r4_importer_split(ctx, res):
     if not ok and not pairs:
         # unrolled form: one statement per table, each over the batches of its own list, with its own target query
         def unrolled(table, tq, lst):
-            hits = [r for r in execs if _re.search(r"INSERT INTO \{?'?" + table + r"'?\}?\s", r[1])]
+            hits = [r for r in execs if _re.search(r"INSERT INTO \{?'?" + table + r"'?\}?(\s|\\n)", r[1])]
             return len(hits) == 1 and '({SENSE_QUERY}),({' + tq + '})' in hits[0][1].replace(' ', '') \
                 and hits[0][3] == (f'for _batch({lst})',)
         ok = unrolled('sense_relations', 'SENSE_QUERY', L1) and unrolled('sense_synset_relations', 'SYNSET_QUERY', L2)
